@@ -600,3 +600,171 @@ def canonical_returns(prog):
             if not changed:
                 break
     return total
+
+
+# ----------------------------------------------------------------------------- scalar brace initialisation
+SCALARS = ('int', 'unsigned int', 'long', 'unsigned long', 'double', 'float', 'bool', 'char', 'short', 'unsigned short', 'long long', 'unsigned long long')
+
+
+def unbrace_scalars(prog):
+    """`const T x{v};` for a scalar T is `const T x = v;`"""
+    n = 0
+    for f in prog.all_functions(include_patterns=True):
+        if f.body is None:
+            continue
+        for x in _nodes(f.body):
+            if x.get('k') == 'Decl':
+                for d in x.get('decls', []):
+                    i = d.get('init')
+                    if isinstance(i, dict) and str(d.get('ty', '')).replace('const ', '').strip() in SCALARS:
+                        j = i
+                        while isinstance(j, dict) and j.get('k') in ('Cast', 'Copy') and isinstance(j.get('e'), dict):
+                            j = j['e']
+                        if isinstance(j, dict) and j.get('k') == 'InitList' and len(j.get('elems', [])) == 1:
+                            d['init'] = j['elems'][0]
+                            n += 1
+    return n
+
+
+# ----------------------------------------------------------------------------- iterator loop -> counted index loop
+def _unwrap_copy(e):
+    e = ir.strip_casts(e)
+    while isinstance(e, dict) and e.get('k') in ('Construct', 'Copy') and (e.get('args') or e.get('e')):
+        inner = [a for a in e.get('args', []) if a.get('k') != 'DefaultArg'] if e.get('k') == 'Construct' else [e['e']]
+        if len(inner) != 1:
+            break
+        e = ir.strip_casts(inner[0])
+    return e
+
+
+def _iterator_for_as_for(s):
+    """for(auto it = X.begin(); it != X.end(); ++it) body(*it, it->m)  ->  for(unsigned long it#i = 0; it#i < X.size(); it#i++) body(X[it#i])
+    Only when `it` occurs in the body solely as `*it` or `it->`, and X is a std::vector lvalue path that the body does not restructure."""
+    init, cond, inc = s.get('init'), s.get('cond'), s.get('inc')
+    if not init or init.get('k') != 'Decl' or len(init['decls']) != 1 or cond is None or inc is None:
+        return None
+    d = init['decls'][0]
+    if 'iterator' not in str(d.get('ty', '')) or d.get('init') is None:
+        return None
+    b = _unwrap_copy(d['init'])
+    if not (b.get('k') == 'Call' and b.get('kind') == 'method' and (b.get('callee') or {}).get('name') in ('begin', 'cbegin') and not b.get('args')):
+        return None
+    X = ir.strip_casts(b['obj'])
+    if not _lvalue_path(X) or X.get('k') == 'This' or not str(X.get('ty', '')).replace('const ', '').startswith('std::vector<'):
+        return None
+    c = ir.strip(cond)
+    if not (c.get('k') == 'Call' and c.get('kind') == 'op' and c.get('op') in ('!=', '<') and len(c.get('args', [])) == 2):
+        return None
+    l, r = ir.strip_casts(c['args'][0]), _unwrap_copy(c['args'][1])
+    if l.get('id') != d['id'] or not (r.get('k') == 'Call' and r.get('kind') == 'method' and (r.get('callee') or {}).get('name') in ('end', 'cend')
+                                      and ir.show(ir.strip_casts(r['obj'])) == ir.show(X)):
+        return None
+    i = ir.strip(inc)
+    if not (i.get('k') == 'Call' and i.get('kind') == 'op' and i.get('op') == '++' and ir.strip_casts(i['args'][0]).get('id') == d['id']):
+        return None
+    if _path_ids(X) & _written_ids(s['body']):
+        return None
+    vty = str(X['ty']).replace('const ', '')
+    ety = vty[len('std::vector<'):-1] if vty.endswith('>') else 'double'
+    line = s.get('l')
+    iid = 'it:' + d['id']
+    iname = d['name'] + '_i'
+    iref = {'k': 'Ref', 'id': iid, 'name': iname, 'rk': 'local', 'ty': 'unsigned long', 'l': line}
+    elem = {'k': 'Index', 'l': line, 'base': copy.deepcopy(X), 'idx': copy.deepcopy(iref), 'q': vty + '::operator[]',
+            'sig': vty + '::operator[](unsigned long)const', 'ty': ety}
+    body = copy.deepcopy(s['body'])
+    ok = [True]
+
+    def rewrite(n):
+        if isinstance(n, dict):
+            if n.get('k') == 'Call' and n.get('kind') == 'op' and n.get('op') in ('*', '->') and len(n.get('args', [])) == 1 \
+                    and ir.strip_casts(n['args'][0]).get('id') == d['id']:
+                n.clear()
+                n.update(copy.deepcopy(elem))
+                return
+            if n.get('k') == 'Ref' and n.get('id') == d['id']:
+                ok[0] = False
+                return
+            for v in list(n.values()):
+                if isinstance(v, (dict, list)):
+                    rewrite(v)
+        elif isinstance(n, list):
+            for v in n:
+                rewrite(v)
+    rewrite(body)
+    if not ok[0]:
+        return None
+    size = {'k': 'Call', 'kind': 'method', 'l': line, 'args': [], 'obj': copy.deepcopy(X), 'ty': 'unsigned long',
+            'callee': {'cls': 'std::vector', 'const': True, 'name': 'size', 'q': vty + '::size', 'ret': 'unsigned long', 'sig': vty + '::size()const'}}
+    return {'k': 'For', 'l': line, 'from_iterator': True,
+            'init': {'k': 'Decl', 'l': line, 'decls': [{'id': iid, 'name': iname, 'ty': 'unsigned long', 'tyw': 'unsigned long', 'l': line,
+                                                         'init': {'k': 'Lit', 'l': line, 'lk': 'int', 'ty': 'unsigned long', 'v': '0', 'val': '0'}}]},
+            'cond': {'k': 'Bin', 'op': '<', 'l': line, 'ty': 'bool', 'lhs': copy.deepcopy(iref), 'rhs': size},
+            'inc': {'k': 'Un', 'op': '++', 'post': True, 'l': line, 'ty': 'unsigned long', 'e': copy.deepcopy(iref)},
+            'body': body}
+
+
+def canonical_iterator_for(prog):
+    n = 0
+    for f in prog.all_functions(include_patterns=True):
+        if f.body is None:
+            continue
+        changed = True
+        while changed:
+            changed = False
+            for s in ir.walk_stmts(f.body):
+                if s.get('k') == 'For' and not s.get('from_iterator') and not s.get('from_range'):
+                    g = _iterator_for_as_for(s)
+                    if g is not None:
+                        s.clear()
+                        s.update(g)
+                        n += 1
+                        changed = True
+                        break
+    return n
+
+
+# ----------------------------------------------------------------------------- `if(c) continue;` in loop bodies
+def _is_continue(s):
+    if s is None:
+        return False
+    if s.get('k') == 'Continue':
+        return True
+    return s.get('k') == 'Compound' and len(s['body']) == 1 and s['body'][0].get('k') == 'Continue'
+
+
+def canonical_continue(prog):
+    """Inside a loop body `if(c) continue; rest...` becomes `if(!c) { rest... }` (loop bodies without `continue` can be
+    summarised; function bodies keep the guard-clause form)."""
+    n = 0
+    for f in prog.all_functions(include_patterns=True):
+        if f.body is None:
+            continue
+        changed = True
+        while changed:
+            changed = False
+            for lp in ir.walk_stmts(f.body):
+                if lp.get('k') not in ('For', 'While', 'Do') or not isinstance(lp.get('body'), dict):
+                    continue
+                body = lp['body']
+                if body.get('k') != 'Compound':
+                    continue
+                seq = body['body']
+                for i, s in enumerate(seq):
+                    if s.get('k') == 'If' and s.get('else') is None and _is_continue(s.get('then')):
+                        rest = seq[i + 1:]
+                        neg = {'k': 'Un', 'op': '!', 'ty': 'bool', 'l': s.get('l'), 'e': s['cond']}
+                        c0 = ir.strip(s['cond'])
+                        if c0.get('k') == 'Un' and c0.get('op') == '!':
+                            neg = c0['e']
+                        elif c0.get('k') == 'Bin' and c0.get('op') in ('==', '!=') and 'double' not in str(ir.strip_casts(c0['lhs']).get('ty', '')) \
+                                and 'float' not in str(ir.strip_casts(c0['lhs']).get('ty', '')):
+                            neg = dict(c0)
+                            neg['op'] = '!=' if c0['op'] == '==' else '=='
+                        seq[i:] = [{'k': 'If', 'l': s.get('l'), 'cond': neg, 'then': {'k': 'Compound', 'l': s.get('l'), 'body': rest}, 'else': None}] if rest else []
+                        n += 1
+                        changed = True
+                        break
+                if changed:
+                    break
+    return n
